@@ -78,6 +78,18 @@ CLAIMED = {
              "R=O), non-canonical / off-curve / degenerate public keys; TLC decides every verdict with VerifyDef. The toy model "
              "shows VerifyDef accepts only what some nonce produces.",
         note=SM2NOTE, ref="6 C03"),
+    "C08": dict(
+        technique="TLA+ leakage model: non-interference by self-composition over all toy secrets (TLC); leakage traces of the real binary (valgrind-lackey PC + address traces) compared pairwise by TLC and against the schedule the comb/chain models prescribe",
+        text="TLC checks, for all pairs of toy secrets, that the observation sequences of masked selection, borrow-chain comparison, "
+             "fixed-window multiplication and fixed addition chain coincide, and that the README's three ruled-out designs do not "
+             "(non-vacuity). For each listed primitive the real binary is run under valgrind-lackey on several secrets with the "
+             "same public input; the scoped, normalised instruction + load/store address traces must be identical (identical up "
+             "to the final verdict for the two verdict functions), as compared by TLC segment by segment; executed call counts "
+             "must match the comb schedule and the extracted addition-chain operation counts.",
+        note="Trusted: TLC/SANY, valgrind-lackey, the segmenter/hasher (harness/drv/leakfilter.go), the symbol scoping. Secrets are sampled "
+             "classes, not all 2^256; micro-architectural timing is out of scope; *_Unsafe functions and big.Int glue are out of "
+             "scope by the property's wording.",
+        ref="6 C08"),
     "C09": dict(
         technique="TLA+ abstract machine (AsmMachine.tla) executing the assembler's own listing of the current tree with a pub/ptr/sec value domain; TLC explores every length vector and both outcomes of the verdict branch",
         text="The macro-expanded listing (`go tool asm -S`) of every amd64 routine with a Go declaration is converted at check time into "
